@@ -71,6 +71,18 @@ theorem functionDef_order (ρ : Expr → Bool) (cx : Ctx) (hn : cx.nsp.kind = .m
     trL ρ es = decos ++ ds ++ optOrder kd :=
   OlVerif.functionDef_order ρ cx hn name po as va ko kd kw ds body decos lineno st es st' h
 
+/-- both wrappers (list display, chain of calls) evaluate the statement expressions in order, each once -/
+theorem wrapper_order (ρ : Expr → Bool) (cfg : Cfg) (es : List Expr) : tr ρ (wrapExprs cfg es) = trL ρ es :=
+  tr_wrapExprs ρ cfg es
+
+/-- **Whole programs**: for a module made of assignments (any targets), annotated and augmented
+    assignments, expression statements and function definitions whose subexpressions are probes,
+    the one expression `convert` returns evaluates every probe of the program exactly once, in
+    Python's order - either wrapper, either if-style, every oracle, every symbol table. -/
+theorem program_order (ρ : Expr → Bool) (cfg : Cfg) (root : SymScope) (ps : List PStmt) (hok : ∀ p ∈ ps, p.ok)
+    (e : Expr) (h : lowerFull cfg root (ps.map PStmt.toStmt) = .ok e) : tr ρ e = PStmt.orders ps :=
+  OlVerif.program_order ρ cfg root ps hok e h
+
 /-- non-vacuity: `(a, (o1.x, *r)), d2[3:4] = v0` - the reference order is 0, 1, 2, 3, 4 -/
 example : (0 : Nat) :: Tgt.orders [.tuple [.tuple [.name "a", .tuple [.attr 1 "x", .star (.name "r")]], .subSlice 2 (some 3) (some 4) none]]
     = [0, 1, 2, 3, 4] := by
